@@ -45,10 +45,12 @@ fn cmd_drive(args: &[String]) {
         for l in &res.lines {
             writeln!(out, "{l}").unwrap();
         }
-        if res.hung {
+        if res.hung
+            || res.lines.iter().any(|l| l.contains("\"kind\":\"stuck\""))
+        {
             hangs += 1;
             if hangs >= 4 {
-                eprintln!("harness: too many hung cases, stopping early");
+                eprintln!("harness: too many hung cases, stopping early (too many hung or stuck runs)");
                 break;
             }
         }
@@ -80,6 +82,32 @@ fn cmd_replay_normalize(args: &[String]) {
     }
 }
 
+/// Generic replay loop: `f(objects, record) -> extra fields`.
+fn replay_loop(
+    args: &[String],
+    f: impl Fn(&writers::Objects, &Value) -> Value,
+) {
+    let lines = read_ndjson(&args[0]);
+    let mut out = fs::File::create(&args[1]).unwrap();
+    let mut cache: Option<(Value, writers::Objects)> = None;
+    for l in lines {
+        let uni = l["universe"].clone();
+        if cache.as_ref().is_none_or(|(u, _)| *u != uni) {
+            let specs: Vec<universe::FeatureSpec> =
+                serde_json::from_value(uni.clone()).unwrap();
+            cache = Some((uni.clone(), writers::Objects::new(&specs)));
+        }
+        let objs = &cache.as_ref().unwrap().1;
+        let mut rec = l.clone();
+        if let (Some(m), Value::Object(x)) = (rec.as_object_mut(), f(objs, &l)) {
+            for (k, v) in x {
+                m.insert(k, v);
+            }
+        }
+        writeln!(out, "{rec}").unwrap();
+    }
+}
+
 fn main() {
     let args: Vec<String> = env::args().skip(1).collect();
     let Some(cmd) = args.first() else {
@@ -89,6 +117,24 @@ fn main() {
     match cmd.as_str() {
         "drive" => cmd_drive(&args[1..]),
         "replay-normalize" => cmd_replay_normalize(&args[1..]),
+        "replay-summarize" => replay_loop(&args[1..], |objs, l| {
+            let pipelines: Vec<String> = l["pipelines"]
+                .as_array()
+                .map(|a| {
+                    a.iter()
+                        .filter_map(|x| x.as_str().map(str::to_owned))
+                        .collect()
+                })
+                .unwrap_or_default();
+            writers::replay_summarize(
+                objs,
+                l["stream"].as_array().unwrap(),
+                &pipelines,
+            )
+        }),
+        "replay-comb" => replay_loop(&args[1..], |objs, l| {
+            writers::replay_comb(objs, l["inp"].as_array().unwrap())
+        }),
         other => {
             eprintln!("unknown subcommand {other}");
             std::process::exit(2);
